@@ -280,4 +280,39 @@ def c17_7(c: Ctx) -> None:
     c03_7(c)
 
 
+@ob('C17.8', 'WMC', 'the WAL file has one writer and it only appends: apart from the constructor that stores it, `wal_path` is used by _default_wal_handler alone, which opens it in append '
+    'mode — nothing in the library reads, rewrites, truncates, rotates or replaces the file (a concurrent rewrite loses the lines appended while it runs)')
+def c17_8(c: Ctx) -> None:
+    wal = c.unit(SVC, f'EventBus.{WAL}')
+    init = c.unit(SVC, 'EventBus.__init__')
+    n_uses = 0
+    for u in c.prog.units.values():
+        if u.module not in (SVC, MOD):
+            continue
+        uses = [x for x in own_nodes(u.node) if isinstance(x, ast.Attribute) and x.attr == 'wal_path']
+        for x in uses:
+            n_uses += 1
+            if u.key == wal.key:
+                continue
+            p = parent(x)
+            if u.key == init.key and isinstance(x.ctx, ast.Store):
+                continue
+            # a bare read (truth test, logging, repr) is harmless; calling a method on it / passing it to a function that can touch the file is not
+            touches = (isinstance(p, ast.Attribute) and isinstance(parent(p), ast.Call) and parent(p).func is p) or (isinstance(p, ast.Call) and x in p.args) or isinstance(x.ctx, (ast.Store, ast.Del)) \
+                or (isinstance(p, ast.Attribute) and p.attr in ('parent',))
+            if touches:
+                c.fail(u, f'{u.qualname} uses wal_path: {q.stmt_text(q.stmt_of(x), 70)}', f'the WAL file is touched outside the WAL handler (in {u.qualname}): reading and rewriting it, or re-pointing the path, while events '
+                       'are being processed loses or misplaces the lines appended meanwhile', node=x)
+    opens = [x for x in own_nodes(wal.node) if isinstance(x, ast.Call) and call_name(x) in ('open_file', 'open')]
+    c.floor(len(opens), 1, 'open calls in the WAL handler')
+    for o in opens:
+        mode = q.kw(o, 'mode') or (o.args[1] if len(o.args) > 1 else None)
+        if isinstance(mode, ast.Constant) and isinstance(mode.value, str) and mode.value.startswith('a'):
+            c.ok(where(wal, o), f'the WAL file is opened in append mode ({mode.value!r})')
+        else:
+            c.fail(wal, f'WAL opened with mode {U(mode) if mode is not None else "<default: read>"}', 'the WAL is not appended to: earlier lines are overwritten / nothing is written', node=o)
+    if n_uses == 0:
+        raise AnalysisError('no use of wal_path found')
+
+
 OBLIGATIONS = ob.obs
